@@ -25,5 +25,7 @@ Selected(sc) == LET u == Joined(sc.pats) IN
 
 Emitted == pc = "done" => PrintT(<<"EMIT", ToJson([pats |-> scn.pats, o |-> scn.o, fixed |-> scn.fixed, sel |-> Selected(scn),
                                                       cieff |-> CaseInsensitive(Joined(scn.pats), scn.o)])>>)
+\* patterns only (C11 reuses the generator; the outcome is decided by RegexIncl)
+EmittedPat == pc = "done" => PrintT(<<"EMIT", ToJson([pats |-> scn.pats, o |-> scn.o, fixed |-> scn.fixed])>>)
 EmitLines == (pc = "pick" /\ scn = CHOOSE x \in Seeds : TRUE) => PrintT(<<"LINES", ToJson([lines |-> Lines])>>)
 =============================================================================
